@@ -60,6 +60,21 @@ def _blocks(node: ast.AST) -> typing.Iterator[list]:
                 pass  # handler bodies are reached through ast.walk (ExceptHandler has .body)
 
 
+def _code_blocks(node: ast.AST) -> typing.Iterator[list]:
+    """Statement lists of executable code below ``node``: like ``_blocks`` but class bodies (and what is nested in them) are
+    left out - a method is not a local function."""
+    stack = [node]
+    while stack:
+        n = stack.pop()
+        for f in _BLOCKS:
+            seq = getattr(n, f, None)
+            if isinstance(seq, list) and seq and isinstance(seq[0], ast.stmt):
+                yield seq
+        for c in ast.iter_child_nodes(n):
+            if not isinstance(c, ast.ClassDef):
+                stack.append(c)
+
+
 def _terminates(seq: list) -> bool:
     if not seq:
         return False
@@ -269,7 +284,7 @@ def strip_meta(fn: ast.AST) -> None:
 
 def defs_to_lambdas(fn: ast.AST) -> None:
     """``def f(a): return E`` nested in a function (no decorator, not a generator) is ``f = lambda a: E``."""
-    for seq in list(_blocks(fn)):
+    for seq in list(_code_blocks(fn)):
         for i, st in enumerate(seq):
             if isinstance(st, ast.FunctionDef) and st is not fn and not st.decorator_list and len(st.body) == 1 and isinstance(st.body[0], ast.Return) and st.body[0].value is not None and not any(isinstance(x, (ast.Yield, ast.YieldFrom, ast.Await)) for x in ast.walk(st)):
                 lam = ast.Lambda(args=st.args, body=st.body[0].value)
@@ -337,6 +352,11 @@ def nnf(test: ast.AST, pol: bool = True) -> ast.AST:
         return nnf(test.operand, not pol)
     if isinstance(test, ast.Call) and isinstance(test.func, ast.Name) and test.func.id == 'bool' and len(test.args) == 1 and not test.keywords and not isinstance(test.args[0], ast.Starred):
         return nnf(test.args[0], pol)  # truth value of bool(x) is the truth value of x
+    if not pol and isinstance(test, ast.Call) and isinstance(test.func, ast.Name) and test.func.id in ('all', 'any') and len(test.args) == 1 and not test.keywords and isinstance(test.args[0], (ast.GeneratorExp, ast.ListComp)):
+        # not all(p(x) ..) is any(not p(x) ..) and vice versa (same elements inspected, same stop)
+        gen = test.args[0]
+        dual = 'any' if test.func.id == 'all' else 'all'
+        return ast.Call(func=ast.Name(id=dual, ctx=ast.Load()), args=[ast.GeneratorExp(elt=nnf(gen.elt, False), generators=gen.generators)], keywords=[])
     if isinstance(test, ast.BoolOp):
         op = type(test.op)() if pol else (ast.Or() if isinstance(test.op, ast.And) else ast.And())
         values = []
@@ -373,11 +393,15 @@ def canonical_tests(fn: ast.AST) -> None:
                 n.test, n.body, n.orelse = n.test.operand, n.orelse, n.body
             if isinstance(n.test, ast.Compare) and len(n.test.ops) == 1 and type(n.test.ops[0]) in _POS:
                 n.test, n.body, n.orelse = nnf(n.test, False), n.orelse, n.body
+            if isinstance(n.test, ast.BoolOp) and isinstance(n.test.op, ast.Or):
+                n.test, n.body, n.orelse = nnf(n.test, False), n.orelse, n.body  # one spelling of a test and its negation: the conjunction
         elif isinstance(n, ast.If):
             n.test = nnf(n.test)
             if n.orelse and isinstance(n.test, ast.UnaryOp) and isinstance(n.test.op, ast.Not):
                 n.test, n.body, n.orelse = n.test.operand, n.orelse, n.body
             if n.orelse and isinstance(n.test, ast.Compare) and len(n.test.ops) == 1 and type(n.test.ops[0]) in _POS:
+                n.test, n.body, n.orelse = nnf(n.test, False), n.orelse, n.body
+            if n.orelse and isinstance(n.test, ast.BoolOp) and isinstance(n.test.op, ast.Or):
                 n.test, n.body, n.orelse = nnf(n.test, False), n.orelse, n.body
         elif isinstance(n, (ast.While, ast.Assert)):
             n.test = nnf(n.test)
@@ -643,6 +667,19 @@ def loops_to_comprehensions(fn: ast.AST) -> None:
                 call = ast.Call(func=ast.Name(id='all', ctx=ast.Load()), args=[ast.GeneratorExp(elt=nnf(test, False), generators=[ast.comprehension(target=loop.target, iter=loop.iter, ifs=[], is_async=0)])], keywords=[])
             seq[i:i + 2] = [ast.copy_location(ast.Return(value=call), loop)]
             break
+    # ``for T in IT: if C: raise E`` (E independent of T)  ->  ``if any(C for T in IT): raise E``
+    for seq in list(_blocks(fn)):
+        for i, loop in enumerate(seq):
+            if not (isinstance(loop, ast.For) and not loop.orelse and len(loop.body) == 1 and isinstance(loop.body[0], ast.If) and not loop.body[0].orelse and len(loop.body[0].body) == 1 and isinstance(loop.body[0].body[0], ast.Raise)):
+                continue
+            loop_vars = {x.id for x in ast.walk(loop.target) if isinstance(x, ast.Name)}
+            if loop_vars & _names(loop.body[0].body[0]):
+                continue
+            bound_elsewhere = {x.id for x in ast.walk(fn) if isinstance(x, ast.Name) and not any(x is y for y in ast.walk(loop))}
+            if loop_vars & bound_elsewhere or loop_vars & _params(fn):
+                continue
+            call = ast.Call(func=ast.Name(id='any', ctx=ast.Load()), args=[ast.GeneratorExp(elt=loop.body[0].test, generators=[ast.comprehension(target=loop.target, iter=loop.iter, ifs=[], is_async=0)])], keywords=[])
+            seq[i] = ast.copy_location(ast.If(test=call, body=loop.body[0].body, orelse=[]), loop)
     # ``for x in (y for y in IT if C)``  ->  ``for x in IT if C[x/y]`` (the inner generator hands its variable through)
     for comp in [n for n in ast.walk(fn) if isinstance(n, (ast.ListComp, ast.SetComp, ast.GeneratorExp, ast.DictComp))]:
         g = comp.generators[0]
@@ -788,8 +825,23 @@ def inline_temporaries(fn: ast.AST, only: typing.Optional[set] = None, sigs: typ
             # every use must come after the assignment in the same block (or nested in later statements of it)
             later = seq[i + 1:]
             later_nodes = {id(n) for s in later for n in ast.walk(s)}
-            if not all(id(u) in later_nodes for u in uses):
-                continue
+            early_uses = [u for u in uses if id(u) not in later_nodes]
+            if early_uses:
+                # uses inside functions defined earlier in this block are fine when those functions only run afterwards:
+                # every mention of such a function (outside itself) comes after the assignment; lambdas / name-pure values only
+                if not (isinstance(v, ast.Lambda) or _is_name_pure(v)):
+                    continue
+                hosts = [d for d in seq[:i] if isinstance(d, ast.FunctionDef) and any(any(u is n for n in ast.walk(d)) for u in early_uses)]
+                if not all(any(any(u is n for n in ast.walk(d)) for d in hosts) for u in early_uses):
+                    continue
+                safe = True
+                for d in hosts:
+                    inside_d = {id(n) for n in ast.walk(d)}
+                    for n in ast.walk(fn):
+                        if isinstance(n, ast.Name) and n.id == d.name and id(n) not in inside_d and id(n) not in later_nodes:
+                            safe = False
+                if not safe:
+                    continue
             if any(isinstance(n, (ast.Global, ast.Nonlocal)) and x in n.names for n in ast.walk(fn)):
                 continue
             ok = False
@@ -879,6 +931,10 @@ def inline_temporaries(fn: ast.AST, only: typing.Optional[set] = None, sigs: typ
                 seq.append(ast.Pass())
             for s in later:
                 Sub().visit(s)
+            if early_uses:
+                for d in seq:
+                    if isinstance(d, ast.FunctionDef):
+                        Sub().visit(d)
             return True
     return False
 
@@ -1089,7 +1145,7 @@ def inline_nested_helpers(fn: ast.AST) -> None:
 
     core.set_parents(fn)
     defs = {}
-    for seq in _blocks(fn):
+    for seq in _code_blocks(fn):
         for st in seq:
             if isinstance(st, ast.FunctionDef) and st is not fn:
                 defs[st.name] = st
@@ -1360,6 +1416,39 @@ def split_versions(fn: ast.AST) -> None:
                 version += 1
 
 
+def split_final_rebindings(fn: ast.AST) -> None:
+    """``x = f(x)`` ; ... ; ``return ..x..`` at the end of a block that leaves the function: from that binding on x is a
+    variable of its own (nothing after the block can see it)."""
+    counter = 0
+    params = _params(fn)
+    closures = [n for n in ast.walk(fn) if n is not fn and isinstance(n, FUNC + (ast.Lambda,))]
+    for seq in list(_blocks(fn)):
+        for k, st in enumerate(seq):
+            if not (isinstance(st, ast.Assign) and len(st.targets) == 1 and isinstance(st.targets[0], ast.Name)):
+                continue
+            x = st.targets[0].id
+            rest = seq[k + 1:]
+            if not rest or not isinstance(rest[-1], (ast.Return, ast.Raise)):
+                continue
+            # x must have another binding (otherwise nothing to split) and no closure may mention it
+            others = [n for n in ast.walk(fn) if isinstance(n, ast.Name) and n.id == x and isinstance(n.ctx, ast.Store) and n is not st.targets[0]]
+            if not others and x not in params:
+                continue
+            if any(x in _names(c) or x in _params(c) for c in closures):
+                continue
+            if any(isinstance(n, ast.Name) and n.id == x and isinstance(n.ctx, (ast.Store, ast.Del)) for r in rest for n in ast.walk(r)):
+                continue
+            if any(isinstance(n, (ast.For, ast.While)) for n in [st]):
+                continue
+            counter += 1
+            new = f'{x}__f{counter}'
+            st.targets[0].id = new
+            for r in rest:
+                for n in ast.walk(r):
+                    if isinstance(n, ast.Name) and n.id == x:
+                        n.id = new
+
+
 def split_arm_variables(fn: ast.AST) -> None:
     """A name that occurs nowhere but inside the two arms of one if/else (not in a loop), bound in both, is two variables:
     an execution takes one arm only, so nothing flows between the occurrences of one arm and those of the other."""
@@ -1585,7 +1674,7 @@ class SignatureIndex:
         return cands
 
 
-def positional_arguments(fn: ast.AST, sigs: typing.Optional[SignatureIndex]) -> None:
+def positional_arguments(fn: ast.AST, sigs: typing.Optional[SignatureIndex], owner: typing.Optional[str] = None) -> None:
     """``f(a, y=b)`` -> ``f(a, b)`` when ``y`` is the next positional parameter of every in-repo callable called ``f``
     (keywords are converted left to right while they continue the positional prefix: evaluation order is unchanged)."""
     if sigs is None:
@@ -1595,6 +1684,8 @@ def positional_arguments(fn: ast.AST, sigs: typing.Optional[SignatureIndex]) -> 
             continue
         f = n.func
         simple = f.attr if isinstance(f, ast.Attribute) else (f.id if isinstance(f, ast.Name) else None)
+        if owner and ((isinstance(f, ast.Name) and f.id == 'cls') or (isinstance(f, ast.Attribute) and f.attr == '__class__' and isinstance(f.value, ast.Name) and f.value.id == 'self')):
+            simple = owner  # the class the method belongs to
         if simple is None:
             continue
         cands = sigs.by_name.get(simple)
@@ -1620,12 +1711,106 @@ def positional_arguments(fn: ast.AST, sigs: typing.Optional[SignatureIndex]) -> 
                 break
 
 
-def normal_form(fn: ast.AST, sigs: typing.Optional[SignatureIndex] = None) -> ast.AST:
+def hoist_nested_defs(fn: ast.AST) -> None:
+    """A nested ``def`` (no decorators, no default values: nothing is evaluated when it is defined) merely binds a name; it
+    moves to the front of its block when no statement it crosses binds or reads that name."""
+    for seq in list(_code_blocks(fn)):
+        k = 0
+        while k < len(seq):
+            st = seq[k]
+            if isinstance(st, ast.FunctionDef) and st is not fn and not st.decorator_list and not st.args.defaults and not [d for d in st.args.kw_defaults if d is not None]:
+                front = sum(1 for x in seq[:k] if isinstance(x, ast.FunctionDef))
+                crossed = seq[front:k]
+                if crossed and not any(st.name in _names(c) or any(isinstance(x, ast.arg) and x.arg == st.name for x in ast.walk(c)) for c in crossed) and not any(isinstance(c, (ast.Return, ast.Raise, ast.Continue, ast.Break)) for c in crossed):
+                    del seq[k]
+                    seq.insert(front, st)
+            k += 1
+
+
+_HOISTED: dict = {}
+
+
+def _anonymous_text(node: ast.AST, sigs: typing.Optional['SignatureIndex']) -> str:
+    """Normal form of a function with its own name (and self references through cls/self/Class) blanked."""
+    clone = ast.parse(ast.unparse(node)).body[0]
+    own = clone.name
+    clone.name = '__f__'
+    clone.decorator_list = [d for d in clone.decorator_list if not (isinstance(d, ast.Name) and d.id == 'staticmethod')]
+
+    class R(ast.NodeTransformer):
+        def visit_Attribute(self, n):  # noqa: N802
+            self.generic_visit(n)
+            if n.attr == own and isinstance(n.value, ast.Name):
+                return ast.copy_location(ast.Name(id='__f__', ctx=n.ctx), n)
+            return n
+
+        def visit_Name(self, n):  # noqa: N802
+            if n.id == own:
+                n.id = '__f__'
+            return n
+
+    R().visit(clone)
+    saved = dict(_HOISTED)
+    _HOISTED.clear()
+    try:
+        return nf_text(clone, sigs)
+    finally:
+        _HOISTED.update(saved)
+
+
+def tokenise_hoisted(fn: ast.AST, sigs: typing.Optional['SignatureIndex']) -> None:
+    """A nested function that captures nothing of its enclosing function is the same thing as a module level / static
+    function with that body: both spellings are replaced by a token naming the body (``__hoisted_<digest>``)."""
+    import hashlib
+
+    own_names = set(_params(fn))
+    for x in _own_nodes(fn):
+        if isinstance(x, ast.Name) and isinstance(x.ctx, ast.Store):
+            own_names.add(x.id)
+        elif isinstance(x, FUNC):
+            own_names.add(x.name)
+    for seq in list(_code_blocks(fn)):
+        for st in list(seq):
+            if isinstance(st, ast.FunctionDef) and st is not fn and not st.decorator_list and not any(isinstance(x, (ast.Nonlocal, ast.Global)) for x in ast.walk(st)):
+                if len(st.body) == 1 and isinstance(st.body[0], ast.Return):
+                    continue  # a one-expression function is a lambda (defs_to_lambdas) and gets inlined
+                inner_bound = _params(st) | {x.id for x in ast.walk(st) if isinstance(x, ast.Name) and isinstance(x.ctx, ast.Store)} | {a.arg for x in ast.walk(st) if isinstance(x, ast.Lambda) for a in ast.walk(x.args) if isinstance(a, ast.arg)}
+                free = {x.id for x in ast.walk(st) if isinstance(x, ast.Name) and isinstance(x.ctx, ast.Load)} - inner_bound
+                if free & (own_names - {st.name}):
+                    continue  # a closure over the enclosing function's variables
+                stores = [x for x in ast.walk(fn) if isinstance(x, ast.Name) and x.id == st.name and isinstance(x.ctx, ast.Store)]
+                if stores:
+                    continue
+                token = '__hoisted_' + hashlib.sha256(_anonymous_text(st, sigs).encode()).hexdigest()[:12]
+                seq.remove(st)
+                if not seq:
+                    seq.append(ast.Pass())
+                for x in ast.walk(fn):
+                    if isinstance(x, ast.Name) and x.id == st.name:
+                        x.id = token
+    if _HOISTED:
+        class H(ast.NodeTransformer):
+            def visit_Attribute(self, n):  # noqa: N802
+                self.generic_visit(n)
+                if n.attr in _HOISTED and isinstance(n.ctx, ast.Load) and isinstance(n.value, ast.Name):
+                    return ast.copy_location(ast.Name(id=_HOISTED[n.attr], ctx=ast.Load()), n)
+                return n
+
+            def visit_Name(self, n):  # noqa: N802
+                if n.id in _HOISTED and isinstance(n.ctx, ast.Load):
+                    n.id = _HOISTED[n.id]
+                return n
+
+        H().visit(fn)
+
+
+def normal_form(fn: ast.AST, sigs: typing.Optional[SignatureIndex] = None, owner: typing.Optional[str] = None) -> ast.AST:
     global _ACTIVE_SIGS
     _ACTIVE_SIGS = sigs
     node = ast.parse(ast.unparse(fn)).body[0]  # a private copy without parent links
     strip_meta(node)
-    positional_arguments(node, sigs)
+    positional_arguments(node, sigs, owner)
+    tokenise_hoisted(node, sigs)
     for _ in range(12):
         before = ast.dump(node)
         defs_to_lambdas(node)
@@ -1641,11 +1826,17 @@ def normal_form(fn: ast.AST, sigs: typing.Optional[SignatureIndex] = None) -> as
         drop_tail_continues(node)
         split_rebound_parameters(node)
         split_versions(node)
+        split_final_rebindings(node)
         split_arm_variables(node)
         sort_independent_assignments(node)
+        hoist_nested_defs(node)
         guard = 0
         while inline_temporaries(node, sigs=sigs) and guard < 200:
             guard += 1
+        for sub in [x for x in ast.walk(node) if x is not node and isinstance(x, FUNC)]:
+            guard = 0
+            while inline_temporaries(sub, sigs=sigs) and guard < 100:
+                guard += 1
         canonical_tests(node)
         if not any(isinstance(x, ast.Return) and x.value is not None and not (isinstance(x.value, ast.Constant) and x.value.value is None) for x in _own_nodes(node)):
             drop_tail_returns(node)
@@ -1667,8 +1858,8 @@ def _own_nodes(fn: ast.AST) -> typing.Iterator[ast.AST]:
         stack.extend(ast.iter_child_nodes(n))
 
 
-def nf_text(fn: ast.AST, sigs: typing.Optional[SignatureIndex] = None) -> str:
-    node = normal_form(fn, sigs)
+def nf_text(fn: ast.AST, sigs: typing.Optional[SignatureIndex] = None, owner: typing.Optional[str] = None) -> str:
+    node = normal_form(fn, sigs, owner)
     return ast.dump(node, include_attributes=False)
 
 
@@ -1850,6 +2041,24 @@ def substitute_equivalent(mod, sigs: typing.Optional[SignatureIndex] = None) -> 
     core.strip_noops(ref_tree)
     cur = _outer_functions(mod.tree)
     ref = _outer_functions(ref_tree)
+    _HOISTED.clear()
+    import hashlib
+
+    for qual, node in cur.items():
+        if qual in ref or '#' in qual:
+            continue
+        par = getattr(node, '_parent', None)
+        static = any(isinstance(d, ast.Name) and d.id == 'staticmethod' for d in node.decorator_list)
+        others = [d for d in node.decorator_list if not (isinstance(d, ast.Name) and d.id == 'staticmethod')]
+        if others or (isinstance(par, ast.ClassDef) and not static):
+            continue
+        plain = [st for st in node.body if not _is_noop(st)]
+        if len(plain) == 1 and isinstance(plain[0], ast.Return):
+            continue
+        try:
+            _HOISTED[node.name] = '__hoisted_' + hashlib.sha256(_anonymous_text(node, sigs).encode()).hexdigest()[:12]
+        except RecursionError:
+            pass
     done = []
     for qual, node in cur.items():
         want = ref.get(qual)
@@ -1858,7 +2067,8 @@ def substitute_equivalent(mod, sigs: typing.Optional[SignatureIndex] = None) -> 
         if ast.dump(node) == ast.dump(want):
             continue
         try:
-            same = nf_text(node, sigs) == nf_text(want, sigs)
+            owner = qual.split('.')[-2] if '.' in qual else None
+            same = nf_text(node, sigs, owner) == nf_text(want, sigs, owner)
         except RecursionError:
             same = False
         if not same:
